@@ -337,7 +337,11 @@ func mapRangeOrderInsensitive(info *types.Info, fnBody *ast.BlockStmt, rs *ast.R
 	}
 	// I1: each target slice must be sorted after the loop, before any other use.
 	for _, t := range targets {
+		sortIssue = ""
 		if !sortedAfter(info, fnBody, rs, t) {
+			if sortIssue != "" {
+				return false, fmt.Sprintf("slice %s collects map entries in iteration order and the comparator it is sorted with %s: elements that agree on that part keep their map-iteration order", t.Name(), sortIssue)
+			}
 			return false, fmt.Sprintf("slice %s collects map entries in iteration order and is not sorted before use", t.Name())
 		}
 	}
@@ -469,7 +473,84 @@ func isSortOf(info *types.Info, s ast.Stmt, obj types.Object) bool {
 	default:
 		return false
 	}
-	return mentions(info, call.Args[0], obj)
+	if !mentions(info, call.Args[0], obj) {
+		return false
+	}
+	// the comparator must order whole elements: map keys are distinct, so a comparator over the entire key is
+	// a total order and the sorted sequence is unique; a comparator that looks at a part of the element (a
+	// sub-slice, one index, some of the fields) leaves ties in map-iteration order
+	for _, a := range call.Args[1:] {
+		if fl, ok := a.(*ast.FuncLit); ok {
+			if why := partialComparator(info, fl, obj); why != "" {
+				sortIssue = why
+				return false
+			}
+		}
+	}
+	return true
+}
+
+// sortIssue carries the reason why the last sort call examined by isSortOf was rejected.
+var sortIssue string
+
+// partialComparator: the comparator closure projects the compared elements (S[i], S[j] of the sorted slice, or
+// its own parameters for SortFunc) onto a part of them.
+func partialComparator(info *types.Info, fl *ast.FuncLit, obj types.Object) string {
+	isElem := func(e ast.Expr) bool {
+		e = ast.Unparen(e)
+		if ix, ok := e.(*ast.IndexExpr); ok {
+			if id, ok := ast.Unparen(ix.X).(*ast.Ident); ok && info.Uses[id] == obj {
+				return true
+			}
+		}
+		if id, ok := e.(*ast.Ident); ok && fl.Type.Params != nil {
+			for _, f := range fl.Type.Params.List {
+				for _, n := range f.Names {
+					if info.Defs[n] != nil && info.Uses[id] == info.Defs[n] {
+						// parameters of element type (SortFunc style), not the int indices of sort.Slice
+						if b, ok := info.Defs[n].Type().Underlying().(*types.Basic); ok && b.Info()&types.IsInteger != 0 {
+							return false
+						}
+						return true
+					}
+				}
+			}
+		}
+		return false
+	}
+	why := ""
+	fieldsUsed := map[string]bool{}
+	var structT *types.Struct
+	ast.Inspect(fl.Body, func(n ast.Node) bool {
+		switch x := n.(type) {
+		case *ast.SliceExpr:
+			if isElem(x.X) && (x.Low != nil || x.High != nil) {
+				why = "compares the sub-slice " + types.ExprString(x) + " of each element"
+			}
+		case *ast.IndexExpr:
+			if isElem(x.X) {
+				why = "compares the single component " + types.ExprString(x) + " of each element"
+			}
+		case *ast.SelectorExpr:
+			if isElem(x.X) {
+				if sel, ok := info.Selections[x]; ok && sel.Kind() == types.FieldVal {
+					fieldsUsed[x.Sel.Name] = true
+					t := sel.Recv()
+					if p, ok := t.Underlying().(*types.Pointer); ok {
+						t = p.Elem()
+					}
+					if st, ok := t.Underlying().(*types.Struct); ok {
+						structT = st
+					}
+				}
+			}
+		}
+		return true
+	})
+	if why == "" && structT != nil && len(fieldsUsed) < structT.NumFields() {
+		why = fmt.Sprintf("compares %d of the %d fields of each element", len(fieldsUsed), structT.NumFields())
+	}
+	return why
 }
 
 // ---------- R2 forbidden calls ----------
